@@ -25,7 +25,7 @@ HARNESS = os.path.join(ROOT, "harness/c10/zz_verif_c10_test.go")
 PKG = "./internal/index/manager/"
 RUN = os.path.join(BUILD, "run", "c10")
 TAGDEFS = ['cdata:"a"', 'cdata:"bb"', 'cdata:"c"']
-GEN_VERSION = 8
+GEN_VERSION = 9
 KF_REFETCH = "view-refetch-empty"
 
 
@@ -56,15 +56,15 @@ def gen_scenario(rng, name, big=False):
     script = []
     n = rng.randint(8, 60 if big else 38)
     style = rng.random()
-    ops = ["import", "step", "view", "read", "release", "tagadd", "tagdel", "tagupd"]
-    if style < 0.25:      # merge-heavy: few tags, many steps
-        w = [0.22, 0.50, 0.12, 0.03, 0.09, 0.02, 0.01, 0.01]
+    ops = ["import", "step", "view", "read", "release", "tagadd", "tagdel", "tagupd", "failmerge"]
+    if style < 0.25:      # merge-heavy: few tags, many steps, merges that fail on a damaged input
+        w = [0.22, 0.40, 0.12, 0.03, 0.09, 0.02, 0.01, 0.01, 0.14]
     elif style < 0.5:     # view-heavy
-        w = [0.18, 0.34, 0.22, 0.05, 0.13, 0.04, 0.02, 0.02]
+        w = [0.18, 0.30, 0.22, 0.05, 0.13, 0.04, 0.02, 0.02, 0.05]
     elif style < 0.75:
-        w = [0.22, 0.40, 0.13, 0.04, 0.09, 0.06, 0.03, 0.03]
+        w = [0.22, 0.36, 0.13, 0.04, 0.09, 0.06, 0.03, 0.03, 0.05]
     else:                 # tag-heavy: tags deleted / redefined while their tagging job is parked
-        w = [0.18, 0.36, 0.10, 0.02, 0.06, 0.10, 0.09, 0.09]
+        w = [0.18, 0.35, 0.10, 0.02, 0.06, 0.10, 0.09, 0.09, 0.02]
     for _ in range(n):
         k = rng.choices(ops, weights=w)[0]
         if k == "import":
@@ -130,6 +130,11 @@ def fixed_scenarios():
     out.append({"name": "fix-restart", "caps": [[[0, 3]], [[1, 2]], [[2, 1]], [[0, 1], [3, 2]], [[1, 4]]], "tags": ['cdata:"a"'], "probe": 6, "restart": True,
                 "script": [["import", 1], ["job", "import"], ["job", "import"], ["import", 1], ["job", "import"], ["job", "import"], ["tagadd"],
                            ["import", 1], ["view"], ["step", 0], ["step", 0], ["step", 0], ["step", 0], ["step", 0], ["step", 0], ["import", 1]]})
+    # a merge fails on a damaged input: nothing may be left behind, its inputs stay served, the run counts as unmergeable
+    out.append({"name": "fix-failed-merge", "caps": [[[0, 3]], [[1, 2]], [[2, 1]], [[0, 1]], [[3, 1]]], "tags": [], "probe": 6, "restart": True,
+                "script": [["import", 1], ["job", "import"], ["job", "import"], ["import", 1], ["job", "import"], ["job", "import"],
+                           ["import", 1], ["job", "import"], ["job", "import"], ["view"], ["failmerge"], ["import", 1], ["job", "import"],
+                           ["job", "merge"], ["job", "import"], ["view"], ["import", 1]]})
     # view opened on an empty service (shape of finding view-refetch-empty)
     out.append({"name": "fix-view-on-empty", "caps": [[[0, 3], [1, 2]], [[0, 1]]], "tags": [], "probe": 4,
                 "script": [["view"], ["import", 1], ["job", "import"], ["job", "import"], ["read", 0], ["import", 1], ["job", "import"], ["job", "import"]]})
@@ -401,6 +406,7 @@ def oracle_c13(sc, trace):
                     fails.append(fail("C13", "deleted-in-use", i, "file %s is held by view %s but is not in the index directory" % (f, vid)))
         badnames = ["c%03d.pcap" % k for k in sc.get("bad", [])] + sorted(junk)
         unexpected = [l for l in (s.get("log") or []) if not any(b in l for b in badnames)
+                      and not (act[:1] == ["failmerge"] and "mergeIndexesJob" in l)     # the merge this action makes fail
                       and not (sc.get("conv") and "onver" in l)]      # failed conversions (converter removed under its job) are C16's business
         if unexpected:
             fails.append(fail("C13", "job-failed", i, "manager log reports: %s" % unexpected[:2]))
@@ -517,6 +523,8 @@ def model_case_text(sc, trace):
             lines.append("convset")
         elif act[0] in ("convremove", "convadd"):
             lines.append(act[0])
+        elif act[0] == "failmerge":
+            lines.append("mergefail")
         elif act[0] in ("start", "complete"):
             lines.append("%s %s" % (act[0], act[1]))
         elif act[0] == "restart":
@@ -670,6 +678,8 @@ def history_features(sc, trace):
                 feat.add("converter-detached-or-removed-under-its-job")
         if act[:1] == ["restart"]:
             feat.add("restart-with-unloadable-index-file")
+        if act[:1] == ["failmerge"]:
+            feat.add("merge-failed-on-damaged-input")
         if act[:1] == ["view"]:
             feat.add("view-opened")
             if s.get("parked"):
